@@ -345,7 +345,15 @@ func c20HandBack(c *Ctx) {
 			r.Unknown("C20/R4", "node.executeOperation:write-back", "polynomial write-back recognisable", c.Pos(ex.Pos()), "store or SaveFSM not found")
 		} else {
 			ap := ssax.Path(polyStore.Addr)
-			r.Check(ssax.Path(polyStore.Val) == "operation.ExtraData" && strings.Contains(ap, "GetFSMInstance(operation.DKGIdentifier") || strings.Contains(ap, "GetFSMInstance(conv<string>(operation.DKGIdentifier)"), "C20/R4", "node.executeOperation:write-back-value", "exactly operation.ExtraData is written into the polynomial of round operation.DKGIdentifier", c.PosOf(polyStore), ap+" := "+ssax.Path(polyStore.Val))
+			// the round is the operation's: the submitted copy's or — since the submitted round id is not bound by Equal
+			// (C15/R7) — the stored operation's
+			roundOK := false
+			for _, rp := range []string{"operation.DKGIdentifier", "s.opService.GetOperationByID(operation.ID)#0.DKGIdentifier"} {
+				if strings.Contains(ap, "GetFSMInstance("+rp) || strings.Contains(ap, "GetFSMInstance(conv<string>("+rp+")") {
+					roundOK = true
+				}
+			}
+			r.Check(ssax.Path(polyStore.Val) == "operation.ExtraData" && roundOK, "C20/R4", "node.executeOperation:write-back-value", "exactly operation.ExtraData is written into the polynomial of round operation.DKGIdentifier", c.PosOf(polyStore), ap+" := "+ssax.Path(polyStore.Val))
 			sa := saves[0].Common().Args
 			// the bytes saved are a dump taken AFTER the polynomial was written: every Dump() call that can supply the saved
 			// value lies behind the store
@@ -365,7 +373,8 @@ func c20HandBack(c *Ctx) {
 					break
 				}
 			}
-			r.Check(strings.HasSuffix(ssax.Path(sa[len(sa)-2]), "operation.DKGIdentifier") && strings.Contains(ssax.Path(sa[len(sa)-1]), ".Dump()") && dumpAfter && !ssax.ReachableAvoiding(ex, saves[0], nil, []ssa.Instruction{polyStore}), "C20/R4", "node.executeOperation:write-back-save", "that round is dumped after the update and saved under its own id", c.PosOf(saves[0]), "SaveFSM("+ssax.Path(sa[len(sa)-2])+", "+ssax.Path(sa[len(sa)-1])+sprintf("); dump taken after the polynomial was written: %v", dumpAfter))
+			keyP := ssax.Path(sa[len(sa)-2])
+			r.Check((strings.HasSuffix(keyP, "operation.DKGIdentifier") || strings.HasSuffix(keyP, "GetOperationByID(operation.ID)#0.DKGIdentifier")) && strings.Contains(ap, "GetFSMInstance("+strings.TrimPrefix(keyP, "conv<string>(")) && strings.Contains(ssax.Path(sa[len(sa)-1]), ".Dump()") && dumpAfter && !ssax.ReachableAvoiding(ex, saves[0], nil, []ssa.Instruction{polyStore}), "C20/R4", "node.executeOperation:write-back-save", "that round is dumped after the update and saved under its own id", c.PosOf(saves[0]), "SaveFSM("+ssax.Path(sa[len(sa)-2])+", "+ssax.Path(sa[len(sa)-1])+sprintf("); dump taken after the polynomial was written: %v", dumpAfter))
 		}
 	}
 }
